@@ -53,6 +53,7 @@ theorem neighborhoodSeg_unit_spec (fl : α → Int) (ix : Index α) (hg : Good i
   rw [if_pos (by omega)]
   simp only [h]
 
+omit [IsStrictOrderedRing α] in
 /-- `neighborhood(track, None, unit)`, `unit ≥ 0`, every vertex inside the extent of a good index -/
 theorem neighborhoodTrackLoop_spec (fl : α → Int) (ix : Index α) (hg : Good ix) (unit : Int) (hu : 0 ≤ unit)
     (track : List (α × α)) (prev : Option (α × α)) (tab : List Nat)
